@@ -1,0 +1,110 @@
+package condition
+
+import (
+	"sync"
+
+	"github.com/expr-lang/expr"
+	"github.com/expr-lang/expr/ast"
+	"github.com/expr-lang/expr/vm"
+)
+
+// SQL three-valued logic for predicates whose evaluation fails.
+//
+// expr-lang aborts the whole program when an ordering comparison meets a NULL
+// (nil) or otherwise incomparable operand, so `m.num <= 5 OR v >= 5` rejected a
+// row with NULL m.num although `v >= 5` was true. In SQL such a comparison is
+// merely not true and the rest of the predicate still counts. When the normal
+// program fails, the condition is therefore re-evaluated with a variant of the
+// same expression in which <, <=, > and >= are calls that return false instead
+// of failing. Rows on which the normal program succeeds never take this path,
+// so their decisions are unchanged.
+
+var nullSafeComparisonFuncs = map[string]string{
+	"<":  "__null_safe_lt",
+	"<=": "__null_safe_le",
+	">":  "__null_safe_gt",
+	">=": "__null_safe_ge",
+}
+
+type nullSafeComparisonPatcher struct{}
+
+func (nullSafeComparisonPatcher) Visit(node *ast.Node) {
+	bn, ok := (*node).(*ast.BinaryNode)
+	if !ok {
+		return
+	}
+	fn, ok := nullSafeComparisonFuncs[bn.Operator]
+	if !ok {
+		return
+	}
+	ast.Patch(node, &ast.CallNode{
+		Callee:    &ast.IdentifierNode{Value: fn},
+		Arguments: []ast.Node{bn.Left, bn.Right},
+	})
+}
+
+var (
+	comparisonProgramsOnce sync.Once
+	comparisonPrograms     map[string]*vm.Program
+)
+
+// compareNonNull applies expr-lang's own comparison to two operands; a failing
+// comparison (incomparable types) is not true.
+func compareNonNull(op string, a, b any) bool {
+	comparisonProgramsOnce.Do(func() {
+		comparisonPrograms = make(map[string]*vm.Program, len(nullSafeComparisonFuncs))
+		for o := range nullSafeComparisonFuncs {
+			if p, err := expr.Compile("a "+o+" b", expr.AllowUndefinedVariables(), expr.AsBool()); err == nil {
+				comparisonPrograms[o] = p
+			}
+		}
+	})
+	p := comparisonPrograms[op]
+	if p == nil {
+		return false
+	}
+	out, err := expr.Run(p, map[string]any{"a": a, "b": b})
+	if err != nil {
+		return false
+	}
+	r, _ := out.(bool)
+	return r
+}
+
+func nullSafeComparisonOptions() []expr.Option {
+	opts := make([]expr.Option, 0, len(nullSafeComparisonFuncs)+1)
+	for op, name := range nullSafeComparisonFuncs {
+		op := op
+		opts = append(opts, expr.Function(name, func(params ...any) (any, error) {
+			if len(params) != 2 || isNilValue(params[0]) || isNilValue(params[1]) {
+				return false, nil
+			}
+			return compareNonNull(op, params[0], params[1]), nil
+		}, new(func(any, any) bool)))
+	}
+	return append(opts, expr.Patch(nullSafeComparisonPatcher{}))
+}
+
+// evaluateNullTolerant re-evaluates the condition after the normal program
+// failed. The tolerant program is compiled on first use; if it cannot be
+// compiled or fails as well, the row is rejected as before.
+func (ec *ExprCondition) evaluateNullTolerant(env any) bool {
+	ec.tolerantOnce.Do(func() {
+		if ec.expression == "" {
+			return
+		}
+		opts := append(append([]expr.Option{}, ec.options...), nullSafeComparisonOptions()...)
+		if p, err := expr.Compile(ec.expression, opts...); err == nil {
+			ec.tolerant = p
+		}
+	})
+	if ec.tolerant == nil {
+		return false
+	}
+	result, err := expr.Run(ec.tolerant, env)
+	if err != nil {
+		return false
+	}
+	r, _ := result.(bool)
+	return r
+}
